@@ -11,9 +11,12 @@
   float64 is a parameter (`FOps`); what is needed of it is `QRFloatExact o s n` for the pitch `s` the renderer chose
   and the symbol dimension `n` (three equations, Proofs/Image2DQR.lean), which holds of every interpretation that is
   exact on integers (`ExactOps`; IEEE binary64 is, below 2^53 — correspondence `img2d qrfloat`).
-  Image-size conditions: from 40x40 pixels (always the case for a QR symbol with the default margin 4: 21+8 = 29
-  modules … not at scale 1) the local binariser is used and the result is unconditional; below, the global histogram
-  method may answer NotFound, which the QR reader hands through unchanged.
+  Image-size conditions imposed by the binarisers: from 40x40 pixels the local method is used — exact on a pure
+  black/white picture; below 40 pixels on an axis the global histogram method is used — exact iff one of the pixels it
+  samples is white (Proofs/Image2DGlobal.lean), NotFound otherwise (handed through unchanged by the QR reader).  For a
+  REFERENCE symbol neither is a condition of the theorems: every rendering below 40 pixels has pitch 1 and a sampled
+  pixel in the padding or on a light function module (`qr_render_big_or_white`, 1 300 bounded cases decided in the
+  kernel); for an arbitrary module matrix with the finder facts the conditions stay (`qr_image_path_eq_matrix_path`).
 -/
 import Gzx.Proofs.Image2DQR
 import Gzx.Proofs.Image2DBin
@@ -164,6 +167,154 @@ theorem refModule_finder (v : Nat) (ec : QRRef.EC) (mask : Nat) (cw : List Nat) 
     have hl : ¬ (QRRef.dimension v - 1 < 7) := by unfold QRRef.dimension; omega
     simp [QRRef.finderDark, hd, hl]
 
+/-! ### every rendered QR symbol below 40 pixels has a white pixel among the sampled ones -/
+
+/-- a module that is light in EVERY symbol of version `v` (whatever level, mask and codewords): light ring of a
+    finder, separator, light timing module, light ring of an alignment pattern -/
+def fixedWhite (v i j : Nat) : Bool :=
+  match QRRef.regionOf v i j with
+  | .finder => !QRRef.finderDark v i j
+  | .separator => true
+  | .timing => (i + j) % 2 != 0
+  | .alignment => !QRRef.alignmentDark v i j
+  | _ => false
+
+theorem fixedWhite_moduleAt (v : Nat) (ec : QRRef.EC) (mask : Nat) (cw : List Nat) (i j : Nat)
+    (h : fixedWhite v i j = true) : QRRef.moduleAt v ec mask cw i j = false := by
+  unfold fixedWhite at h
+  unfold QRRef.moduleAt QRRef.isFunction QRRef.functionModule
+  cases hr : QRRef.regionOf v i j <;> rw [hr] at h <;> simp_all
+
+/-- the picture `W x H` of a version-`v` symbol at pitch 1, centred: one of the pixels the global method samples lies
+    outside the symbol or on a module that is light in every symbol -/
+def smallOK (v W H : Nat) : Bool :=
+  let n := QRRef.dimension v
+  let padX := (W - n) / 2
+  let padY := (H - n) / 2
+  (List.range 4).any fun k' =>
+    let y := H * (k' + 1) / 5
+    (List.range (W * 4 / 5 - W / 5)).any fun dx =>
+      let x := W / 5 + dx
+      decide (x < padX) || decide (x ≥ padX + n) || decide (y < padY) || decide (y ≥ padY + n) ||
+        fixedWhite v (x - padX) (y - padY)
+
+/-- the bounded cases: an axis below 40 pixels, and on neither axis does the first sampled line fall into the padding -/
+def smallCase (v W H : Nat) : Bool :=
+  let n := QRRef.dimension v
+  decide (n ≤ W) && decide (n ≤ H) && (decide (W < 40) || decide (H < 40)) &&
+  !decide (W / 5 < (W - n) / 2) && !decide (H / 5 < (H - n) / 2)
+
+def allSmallOK : Bool :=
+  [1, 2, 3, 4, 5].all fun v => (List.range 71).all fun W => (List.range 71).all fun H =>
+    !smallCase v W H || smallOK v W H
+
+set_option maxRecDepth 100000 in
+/-- all 1 300-odd bounded cases (versions 1..5, both axes up to 70 pixels), decided by the kernel -/
+theorem allSmallOK_true : allSmallOK = true := by decide +kernel
+
+/-- **every rendering of a reference symbol is at least 40x40 pixels or has a white pixel among those the global
+    histogram method samples** — whatever the level, mask, codewords, margin ≥ 0 and requested size: below 40 pixels
+    the pitch is 1; then either the first sampled row / column lies in the padding, or the picture is one of the
+    bounded cases above, in which a light function module (finder ring, separator, timing, alignment ring) is sampled. -/
+theorem qr_render_big_or_white (v : Nat) (h1 : 1 ≤ v) (ec : QRRef.EC) (mask : Nat) (cw : List Nat)
+    (q reqW reqH : Int) (hq : 0 ≤ q) :
+    ∀ img, renderQR (QRRef.dimension v) (QRRef.dimension v) (refModule v ec mask cw) q reqW reqH = .ok img →
+      (40 ≤ img.w ∧ 40 ≤ img.h) ∨ WhiteSample img := by
+  intro img0 himg0
+  have hn : QRRef.dimension v = 17 + 4 * v := rfl
+  obtain ⟨img, himg, ew, eh, hshow⟩ := renderQR_shows (QRRef.dimension v) (QRRef.dimension v) (refModule v ec mask cw)
+    q reqW reqH hq (by omega) (by omega)
+  have himgeq : img = img0 := by rw [himg] at himg0; exact Except.ok.inj himg0
+  subst himgeq
+  by_cases hbig : 40 ≤ img.w ∧ 40 ≤ img.h
+  · exact Or.inl hbig
+  · right
+    have hs := hshow (bitImage img) ⟨rfl, rfl, fun _ _ _ => rfl⟩
+    obtain ⟨hs1, fw, fh, -⟩ := renderQR_quiet (QRRef.dimension v) (QRRef.dimension v) q reqW reqH hq (by omega) (by omega)
+    rw [← ew] at fw; rw [← eh] at fh
+    generalize hsd : qrScale (QRRef.dimension v) (QRRef.dimension v) q reqW reqH = s at hs hs1 fw fh
+    -- below 40 pixels the pitch is 1
+    have hse : s = 1 := by
+      by_cases h2 : 2 ≤ s
+      · exfalso
+        have e : 2 * ((QRRef.dimension v : Int) + 2 * q) ≤ s * ((QRRef.dimension v : Int) + 2 * q) :=
+          Int.mul_le_mul_of_nonneg_right h2 (by omega)
+        omega
+      · omega
+    subst hse
+    simp only [Int.one_mul] at fw fh
+    have hpX : padOf img.w (QRRef.dimension v) 1 = (img.w - (QRRef.dimension v : Int)) / 2 := by unfold padOf; simp
+    have hpY : padOf img.h (QRRef.dimension v) 1 = (img.h - (QRRef.dimension v : Int)) / 2 := by unfold padOf; simp
+    rw [hpX, hpY] at hs
+    -- natural-number views
+    generalize hWn : img.w.toNat = Wn
+    generalize hHn : img.h.toNat = Hn
+    have eW : img.w = (Wn : Int) := by omega
+    have eH : img.h = (Hn : Int) := by omega
+    have hpix : ∀ (x y : Nat), x < Wn → y < Hn →
+        (x < (Wn - QRRef.dimension v) / 2 ∨ x ≥ (Wn - QRRef.dimension v) / 2 + QRRef.dimension v ∨
+          y < (Hn - QRRef.dimension v) / 2 ∨ y ≥ (Hn - QRRef.dimension v) / 2 + QRRef.dimension v ∨
+          fixedWhite v (x - (Wn - QRRef.dimension v) / 2) (y - (Hn - QRRef.dimension v) / 2) = true) →
+        img.px (x : Int) (y : Int) = false := by
+      intro x y hx hy hc
+      cases hp : img.px (x : Int) (y : Int) with
+      | false => rfl
+      | true =>
+        exfalso
+        have hin : (bitImage img).inside (x : Int) (y : Int) := by
+          simp only [Img.inside, bitImage]; omega
+        obtain ⟨p1, p2, p3, p4, p5⟩ := (hs.pix _ _ hin).1 hp
+        simp only [Int.mul_one, Int.ediv_one] at p2 p4 p5
+        rcases hc with c | c | c | c | c
+        · omega
+        · omega
+        · omega
+        · omega
+        · have e1 : ((x : Int) - (img.w - (QRRef.dimension v : Int)) / 2).toNat = x - (Wn - QRRef.dimension v) / 2 := by omega
+          have e2 : ((y : Int) - (img.h - (QRRef.dimension v : Int)) / 2).toNat = y - (Hn - QRRef.dimension v) / 2 := by omega
+          rw [e1, e2] at p5
+          have := fixedWhite_moduleAt v ec mask cw _ _ c
+          unfold refModule at p5
+          rw [this] at p5
+          cases p5
+    unfold WhiteSample
+    rw [hWn, hHn]
+    by_cases hA : Wn / 5 < (Wn - QRRef.dimension v) / 2
+    · exact ⟨1, Wn / 5, by simp, Nat.le_refl _, by omega, hpix _ _ (by omega) (by omega) (Or.inl hA)⟩
+    · by_cases hB : Hn / 5 < (Hn - QRRef.dimension v) / 2
+      · exact ⟨1, Wn / 5, by simp, Nat.le_refl _, by omega,
+          hpix _ _ (by omega) (by omega) (Or.inr (Or.inr (Or.inl (by omega))))⟩
+      · -- the bounded cases
+        have hv : v ∈ [1, 2, 3, 4, 5] := by
+          have : v = 1 ∨ v = 2 ∨ v = 3 ∨ v = 4 ∨ v = 5 := by omega
+          rcases this with rfl | rfl | rfl | rfl | rfl <;> simp
+        have hall := allSmallOK_true
+        unfold allSmallOK at hall
+        have h1' := List.all_eq_true.mp hall v hv
+        have h2' := List.all_eq_true.mp h1' Wn (List.mem_range.mpr (by omega))
+        have h3' := List.all_eq_true.mp h2' Hn (List.mem_range.mpr (by omega))
+        have hcase : smallCase v Wn Hn = true := by
+          unfold smallCase
+          simp only [Bool.and_eq_true, Bool.or_eq_true, decide_eq_true_eq, Bool.not_eq_true', decide_eq_false_iff_not]
+          exact ⟨⟨⟨⟨by omega, by omega⟩, by omega⟩, hA⟩, hB⟩
+        rw [hcase] at h3'
+        simp only [Bool.not_true, Bool.false_or] at h3'
+        unfold smallOK at h3'
+        simp only [List.any_eq_true, List.mem_range, Bool.or_eq_true, decide_eq_true_eq] at h3'
+        obtain ⟨k', hk', dx, hdx, hc⟩ := h3'
+        have hyH : Hn * (k' + 1) / 5 < Hn := by
+          have : Hn * (k' + 1) ≤ Hn * 4 := Nat.mul_le_mul_left Hn (by omega)
+          omega
+        refine ⟨k' + 1, Wn / 5 + dx, ?_, by omega, by omega, hpix _ _ (by omega) hyH ?_⟩
+        · have : k' = 0 ∨ k' = 1 ∨ k' = 2 ∨ k' = 3 := by omega
+          rcases this with rfl | rfl | rfl | rfl <;> simp
+        · rcases hc with (((c | c) | c) | c) | c
+          · exact Or.inl c
+          · exact Or.inr (Or.inl c)
+          · exact Or.inr (Or.inr (Or.inl c))
+          · exact Or.inr (Or.inr (Or.inr (Or.inl c)))
+          · exact Or.inr (Or.inr (Or.inr (Or.inr c)))
+
 /-- the matrix read off, handed to the decoder model, is the reference symbol -/
 theorem toQR_ref (v : Nat) (ec : QRRef.EC) (mask : Nat) (cw : List Nat) :
     toQR { w := QRRef.dimension v, h := QRRef.dimension v,
@@ -248,28 +399,40 @@ theorem qr_image_of_matrix_result_cw {F : Type} (o : FOps F) (T : QRDec.Tables) 
   · intro hwhite
     exact hbig (Or.inr (hwhite img himg))
 
+/-- … and, for versions 1..40, WITHOUT any condition on the image size: every rendering is at least 40x40 pixels or
+    has a white pixel among the sampled ones (`qr_render_big_or_white`) -/
+theorem qr_image_of_matrix_result_full {F : Type} (o : FOps F) (T : QRDec.Tables) (hint : ECI.Hint)
+    (v : Nat) (h1 : 1 ≤ v) (ec : QRRef.EC) (mask : Nat) (cw : List Nat) (want : QRDec.Decoded)
+    (hsym : QRDec.decode T QRComp.rsQR hint (QRComp.matrixOf (QRRef.refMatrix v ec mask cw)) = .ok want)
+    (q reqW reqH : Int) (hq : 0 ≤ q)
+    (ho : QRFloatExact o (qrScale (QRRef.dimension v) (QRRef.dimension v) q reqW reqH) (QRRef.dimension v)) :
+    qrImageDecode o T hint v ec mask cw q reqW reqH = .ok want := by
+  obtain ⟨hbig, hwhite, -⟩ := qr_image_of_matrix_result_cw o T hint v ec mask cw want hsym q reqW reqH hq ho
+  obtain ⟨img, himg, ew, eh, -⟩ := renderQR_shows (QRRef.dimension v) (QRRef.dimension v) (refModule v ec mask cw)
+    q reqW reqH hq (by unfold QRRef.dimension; omega) (by unfold QRRef.dimension; omega)
+  rcases qr_render_big_or_white v h1 ec mask cw q reqW reqH hq img himg with ⟨b1, b2⟩ | hw
+  · exact hbig (by rw [← ew]; exact b1) (by rw [← eh]; exact b2)
+  · refine hwhite ?_
+    intro img' himg'
+    rw [himg] at himg'
+    cases himg'
+    exact hw
+
 /-- … in particular of the reference symbol of a payload (`qr_roundtrip_bits`, `qr_roundtrip_items`,
     `qr_roundtrip_segments`) -/
 theorem qr_image_of_matrix_result {F : Type} (o : FOps F) (T : QRDec.Tables) (hint : ECI.Hint)
-    (v : Nat) (ec : QRRef.EC) (mask : Nat) (bits : List Bool) (want : QRDec.Decoded)
+    (v : Nat) (h1 : 1 ≤ v) (ec : QRRef.EC) (mask : Nat) (bits : List Bool) (want : QRDec.Decoded)
     (hsym : QRDec.decode T QRComp.rsQR hint (C01.refSymbol v ec mask bits) = .ok want)
     (q reqW reqH : Int) (hq : 0 ≤ q)
     (ho : QRFloatExact o (qrScale (QRRef.dimension v) (QRRef.dimension v) q reqW reqH) (QRRef.dimension v)) :
-    let cw := QRRef.finalCodewords v ec (QRRef.terminate (QRRef.dataCodewords v ec) bits)
-    let n := QRRef.dimension v
-    (40 ≤ outSize reqW n (2 * q) → 40 ≤ outSize reqH n (2 * q) →
-      qrImageDecode o T hint v ec mask cw q reqW reqH = .ok want) ∧
-    ((∀ img, renderQR n n (refModule v ec mask cw) q reqW reqH = .ok img → WhiteSample img) →
-      qrImageDecode o T hint v ec mask cw q reqW reqH = .ok want) ∧
-    (qrImageDecode o T hint v ec mask cw q reqW reqH = .ok want ∨
-      qrImageDecode o T hint v ec mask cw q reqW reqH = .error (.other .notFound)) := by
-  intro cw n
+    qrImageDecode o T hint v ec mask
+      (QRRef.finalCodewords v ec (QRRef.terminate (QRRef.dataCodewords v ec) bits)) q reqW reqH = .ok want := by
   unfold C01.refSymbol at hsym
-  exact qr_image_of_matrix_result_cw o T hint v ec mask cw want hsym q reqW reqH hq ho
+  exact qr_image_of_matrix_result_full o T hint v h1 ec mask _ want hsym q reqW reqH hq ho
 
 /-- **the image of a DAMAGED symbol** (C05 at image level): the codeword modules carry the interleaving of received
     blocks in which at most ⌊ecPerBlock/2⌋ codewords of every Reed-Solomon block differ from what was written
-    (`QRComp.Received`); its rendering at any size and margin ≥ 0, read in pure-barcode mode, gives exactly what the
+    (`QRComp.Received`); its rendering at ANY size and margin ≥ 0, read in pure-barcode mode, gives exactly what the
     undamaged symbol gives.  Function patterns are those of the reference: damage to the finder diagonal is outside
     this statement. -/
 theorem qr_image_tolerates_block_errors {F : Type} (o : FOps F) (T : QRDec.Tables) (hT : QRComp.TablesConform T)
@@ -280,17 +443,9 @@ theorem qr_image_tolerates_block_errors {F : Type} (o : FOps F) (T : QRDec.Table
     (hrecv : QRComp.Received v ec (QRRef.terminate (QRRef.dataCodewords v ec) bits) recv)
     (q reqW reqH : Int) (hq : 0 ≤ q)
     (ho : QRFloatExact o (qrScale (QRRef.dimension v) (QRRef.dimension v) q reqW reqH) (QRRef.dimension v)) :
-    let cw := QRDec.interleave recv
-    let want : QRDec.Decoded := ⟨parsed, QRComp.toDecEC ec, v, QRRef.terminate (QRRef.dataCodewords v ec) bits, false⟩
-    let n := QRRef.dimension v
-    (40 ≤ outSize reqW n (2 * q) → 40 ≤ outSize reqH n (2 * q) →
-      qrImageDecode o T hint v ec mask cw q reqW reqH = .ok want) ∧
-    ((∀ img, renderQR n n (refModule v ec mask cw) q reqW reqH = .ok img → WhiteSample img) →
-      qrImageDecode o T hint v ec mask cw q reqW reqH = .ok want) ∧
-    (qrImageDecode o T hint v ec mask cw q reqW reqH = .ok want ∨
-      qrImageDecode o T hint v ec mask cw q reqW reqH = .error (.other .notFound)) := by
-  intro cw want n
-  exact qr_image_of_matrix_result_cw o T hint v ec mask cw want
+    qrImageDecode o T hint v ec mask (QRDec.interleave recv) q reqW reqH =
+      .ok ⟨parsed, QRComp.toDecEC ec, v, QRRef.terminate (QRRef.dataCodewords v ec) bits, false⟩ :=
+  qr_image_of_matrix_result_full o T hint v h1 ec mask _ _
     (C05.qr_tolerates_block_errors T hT hint v h1 h40 ec mask hm bits hfit parsed hparse recv hrecv) q reqW reqH hq ho
 
 /-- **`qr_image_pure_roundtrip`** — payload bits (mode, count, data of ANY segment list that fits version `v` at level
@@ -298,10 +453,10 @@ theorem qr_image_tolerates_block_errors {F : Type} (o : FOps F) (T : QRDec.Table
     `renderResult` with ANY requested width and height and ANY margin ≥ 0 → image → luminances → `HybridBinarizer` →
     `QRCodeReader.Decode(PURE_BARCODE)` (extractPureBits with float64 `o` → `Decoder.Decode` model with the C04
     Reed-Solomon decoder):
-      * returns what the bit-stream parser makes of the payload, the level, the version, the data codewords (first
-        attempt, not mirrored) whenever the image is at least 40x40 pixels, and below whenever one of the pixels the
-        global histogram method samples is white (`WhiteSample`);
-      * in every case the same, or the binariser's NotFound handed through — nothing else.
+    returns what the bit-stream parser makes of the payload, the level, the version, the data codewords (first attempt,
+    not mirrored) — FOR EVERY IMAGE SIZE: at 40x40 pixels and above by the local binariser, below by the global
+    histogram method, which is exact because a pixel of the padding or of a light function module is among its samples
+    (`qr_render_big_or_white`).
     Hypotheses beyond `qr_roundtrip_bits`: margin ≥ 0; float64 accurate at the pitch the renderer chose
     (`QRFloatExact`, implied by `ExactOps o`). -/
 theorem qr_image_pure_roundtrip {F : Type} (o : FOps F) (T : QRDec.Tables) (hT : QRComp.TablesConform T) (hint : ECI.Hint)
@@ -310,17 +465,10 @@ theorem qr_image_pure_roundtrip {F : Type} (o : FOps F) (T : QRDec.Tables) (hT :
     (hparse : ∀ tail, QRDec.Terminated tail → QRDec.parseStream T.eci (bits ++ tail) v hint = .ok parsed)
     (q reqW reqH : Int) (hq : 0 ≤ q)
     (ho : QRFloatExact o (qrScale (QRRef.dimension v) (QRRef.dimension v) q reqW reqH) (QRRef.dimension v)) :
-    let cw := QRRef.finalCodewords v ec (QRRef.terminate (QRRef.dataCodewords v ec) bits)
-    let want : QRDec.Decoded := ⟨parsed, QRComp.toDecEC ec, v, QRRef.terminate (QRRef.dataCodewords v ec) bits, false⟩
-    let n := QRRef.dimension v
-    (40 ≤ outSize reqW n (2 * q) → 40 ≤ outSize reqH n (2 * q) →
-      qrImageDecode o T hint v ec mask cw q reqW reqH = .ok want) ∧
-    ((∀ img, renderQR n n (refModule v ec mask cw) q reqW reqH = .ok img → WhiteSample img) →
-      qrImageDecode o T hint v ec mask cw q reqW reqH = .ok want) ∧
-    (qrImageDecode o T hint v ec mask cw q reqW reqH = .ok want ∨
-      qrImageDecode o T hint v ec mask cw q reqW reqH = .error (.other .notFound)) := by
-  intro cw want n
-  exact qr_image_of_matrix_result o T hint v ec mask bits want
+    qrImageDecode o T hint v ec mask
+      (QRRef.finalCodewords v ec (QRRef.terminate (QRRef.dataCodewords v ec) bits)) q reqW reqH =
+      .ok ⟨parsed, QRComp.toDecEC ec, v, QRRef.terminate (QRRef.dataCodewords v ec) bits, false⟩ :=
+  qr_image_of_matrix_result o T hint v h1 ec mask bits _
     (C01.qr_roundtrip_bits T hT hint v h1 h40 ec mask hm bits hfit parsed hparse) q reqW reqH hq ho
 
 /-- **`qr_image_pure_roundtrip_items`** — content level: EVERY list of items in any order (numeric / alphanumeric /
@@ -336,19 +484,11 @@ theorem qr_image_pure_roundtrip_items {F : Type} (o : FOps F) (T : QRDec.Tables)
     (hfit : (QRMulti.bitsOf v items).length ≤ 8 * QRRef.dataCodewords v ec)
     (q reqW reqH : Int) (hq : 0 ≤ q)
     (ho : QRFloatExact o (qrScale (QRRef.dimension v) (QRRef.dimension v) q reqW reqH) (QRRef.dimension v)) :
-    let bits := QRMulti.bitsOf v items
-    let cw := QRRef.finalCodewords v ec (QRRef.terminate (QRRef.dataCodewords v ec) bits)
-    let want : QRDec.Decoded := ⟨QRMulti.toParsed (QRMulti.run T.eci g {} items), QRComp.toDecEC ec, v,
-      QRRef.terminate (QRRef.dataCodewords v ec) bits, false⟩
-    let n := QRRef.dimension v
-    (40 ≤ outSize reqW n (2 * q) → 40 ≤ outSize reqH n (2 * q) →
-      qrImageDecode o T hint v ec mask cw q reqW reqH = .ok want) ∧
-    ((∀ img, renderQR n n (refModule v ec mask cw) q reqW reqH = .ok img → WhiteSample img) →
-      qrImageDecode o T hint v ec mask cw q reqW reqH = .ok want) ∧
-    (qrImageDecode o T hint v ec mask cw q reqW reqH = .ok want ∨
-      qrImageDecode o T hint v ec mask cw q reqW reqH = .error (.other .notFound)) := by
-  intro bits cw want n
-  exact qr_image_of_matrix_result o T hint v ec mask bits want
+    qrImageDecode o T hint v ec mask
+      (QRRef.finalCodewords v ec (QRRef.terminate (QRRef.dataCodewords v ec) (QRMulti.bitsOf v items))) q reqW reqH =
+      .ok ⟨QRMulti.toParsed (QRMulti.run T.eci g {} items), QRComp.toDecEC ec, v,
+        QRRef.terminate (QRRef.dataCodewords v ec) (QRMulti.bitsOf v items), false⟩ :=
+  qr_image_of_matrix_result o T hint v h1 ec mask (QRMulti.bitsOf v items) _
     (C01Multi.qr_roundtrip_items T hT hint v h1 h40 ec mask hm items g hc hg hfit) q reqW reqH hq ho
 
 /-- the same for the symbol the MIRROR of the Go encoder builds (`Encoder_encode`'s back half: terminateBits,
@@ -365,9 +505,8 @@ theorem qr_image_pure_roundtrip_mirror {F : Type} (o : FOps F) {K : QREnc.Kernel
     ∃ (k : Nat) (M : QREnc.ByteMatrix), k < 8 ∧ QREnc.backHalf K v ec forced payload = .ok ((k : Int), M) ∧
       M.bytes.map (fun r => r.map (· == 1)) =
         matrixRows (QRRef.dimension v) (QRRef.dimension v) (refModule v ec k (QREnc.refCodewords v ec payload)) ∧
-      (40 ≤ outSize reqW (QRRef.dimension v) (2 * q) → 40 ≤ outSize reqH (QRRef.dimension v) (2 * q) →
-        qrImageDecode o T hint v ec k (QREnc.refCodewords v ec payload) q reqW reqH =
-          .ok ⟨parsed, QRComp.toDecEC ec, v, QRRef.terminate (QRRef.dataCodewords v ec) payload, false⟩) := by
+      qrImageDecode o T hint v ec k (QREnc.refCodewords v ec payload) q reqW reqH =
+        .ok ⟨parsed, QRComp.toDecEC ec, v, QRRef.terminate (QRRef.dataCodewords v ec) payload, false⟩ := by
   have hbh := QREnc.backHalf_eq_ref hK v h1 h40 hfn ec forced hforced payload hfit
   have hmask : forced.getD (QRRef.chooseMask v ec (QREnc.refCodewords v ec payload)) < 8 := by
     cases hfo : forced with
@@ -393,8 +532,8 @@ theorem qr_image_pure_roundtrip_mirror {F : Type} (o : FOps F) {K : QREnc.Kernel
     (by unfold QRRef.dimension; omega) (by unfold QRRef.dimension; omega)
   refine ⟨_, _, hmask, hbh, ?_, ?_⟩
   · rw [C07Mirror.refByteMatrix_modules, refModule_rows]
-  · exact (qr_image_pure_roundtrip o T hT hint v h1 h40 ec _ hmask payload hfit parsed hparse q reqW reqH hq
-      (ho.qrFloatExact _ _ hs1 (by omega))).1
+  · exact qr_image_pure_roundtrip o T hT hint v h1 h40 ec _ hmask payload hfit parsed hparse q reqW reqH hq
+      (ho.qrFloatExact _ _ hs1 (by omega))
 
 /-! ## non-vacuity -/
 
